@@ -448,8 +448,15 @@ class WsgiApplication(HttpBase):
                                                 self.app.out_protocol.mime_type)
 
         self.event_manager.fire_event('wsgi_call', initial_ctx)
-        initial_ctx.in_string, in_string_charset = \
+
+        try:
+            initial_ctx.in_string, in_string_charset = \
                                         self.__reconstruct_wsgi_request(req_env)
+
+        except Fault as e:
+            initial_ctx.in_error = initial_ctx.out_error = e
+            initial_ctx.fire_event('method_exception_object')
+            return self.handle_error(initial_ctx, (), e, start_response)
 
         contexts = self.generate_contexts(initial_ctx, in_string_charset)
         p_ctx, others = contexts[0], contexts[1:]
@@ -571,14 +578,30 @@ class WsgiApplication(HttpBase):
     def __wsgi_input_to_iterable(self, http_env):
         istream = http_env.get('wsgi.input')
 
-        length = str(http_env.get('CONTENT_LENGTH', self.max_content_length))
-        if len(length) == 0:
-            length = 0
-        else:
-            length = int(length)
+        length = http_env.get('CONTENT_LENGTH')
+        declared = length is not None
+        if declared:
+            length = str(length)
+            if len(length) == 0:
+                length = 0
+            else:
+                length = int(length)
 
+        else:
+            # The client did not say how long the body is: it ends where the
+            # input stream ends, which must happen before max_content_length
+            # bytes are read.
+            length = self.max_content_length
+
+        # This is checked here and not in the generator below so that a request
+        # that is declared too long is refused even when the input protocol
+        # never reads the body.
         if length > self.max_content_length:
             raise RequestTooLongError()
+
+        return self.__read_wsgi_input(istream, length, declared)
+
+    def __read_wsgi_input(self, istream, length, declared):
         bytes_read = 0
 
         while bytes_read < length:
@@ -589,11 +612,15 @@ class WsgiApplication(HttpBase):
 
             data = istream.read(bytes_to_read)
             if data is None or len(data) == 0:
-                break
+                return
 
             bytes_read += len(data)
 
             yield data
+
+        if not declared:
+            # max_content_length bytes were read and the stream did not end.
+            raise RequestTooLongError()
 
     def decompose_incoming_envelope(self, prot, ctx, message):
         """This function is only called by the HttpRpc protocol to have the wsgi
